@@ -553,13 +553,13 @@ static void run_threads(std::istream &in, std::size_t maxlen, std::size_t minlen
             // consumer style by thread index: bool(next()) / !next() / range-for / explicit iterator with postfix ++ / polling next_ready()
             switch (i % 5) {
                 case 4:
-                    // polling consumer: next_ready() until the stream has ended (after close the final blocking next() ends it)
+                    // polling consumer: next_ready() until the stream has ended
+                    // (false after the position moved = end of stream was fetched; false without a move = nothing yet)
                     for (;;) {
+                        std::size_t before = s.position();
                         if (s.next_ready()) { note(); continue; }
-                        if (closed.load()) {
-                            if (!s.next()) break;
-                            note();
-                        } else std::this_thread::yield();
+                        if (s.position() != before) break;
+                        std::this_thread::yield();
                     }
                     break;
                 case 0:
